@@ -25,7 +25,7 @@ from .. import core, cxx, impl, qgen, semrun
 PID = "C02"
 PROP_FILE = "Properties/C02.v"
 BACKENDS = ["atlas", "cms_aod", "cms_miniaod"]
-ALLOW = ["range", "first", "aggregate", "int_true_division", "selectmany_seq_column", "selectmany_inside", "shared_shapes"]
+ALLOW = ["range", "first", "aggregate", "int_true_division", "selectmany_seq_column", "selectmany_inside", "shared_shapes", "index"]
 TRUSTED = [
     "Coq 8.16.1 kernel (coqc); vm_compute only in the witness Examples",
     "Cpp/IR.v + Cpp/Exec.v as the meaning of the emitted C++ subset (shared with C01/C03-C05); the theorems are about Exec, g++ validates the checkers' verdicts on samples",
